@@ -86,11 +86,11 @@ def mwSpecStep (a : ArrCur) (op : List String) : String × Option ArrCur :=
   | ["dump"] => (",".intercalate (a.arr.map toString), some a)
   | _ => ("bad-op", none)
 
-def runOps {σ} (step : σ → List String → String × Option σ) : σ → List (List String) → List String → List String
+def runOpsD {σ} (step : σ → List String → String × Option σ) : σ → List (List String) → List String → List String
   | _, [], acc => acc.reverse
   | s, op :: ops, acc =>
     match step s op with
-    | (o, some s') => runOps step s' ops (o :: acc)
+    | (o, some s') => runOpsD step s' ops (o :: acc)
     | (o, none) => (o :: acc).reverse
 
 def handleMW (cfgs : List String) (ops : List (List String)) : String :=
@@ -116,8 +116,8 @@ def handleMW (cfgs : List String) (ops : List (List String)) : String :=
     | .readerZeroExt, ["len"] => ("bad-op", none)
     | .readerStrict, ["len"] => ("bad-op", none)
     | _, _ => mwSpecStep a op
-  let o3 := runOps mwStep mk ops []
-  let o1 := runOps specStep { kind := sk, arr := init.map (· % 2 ^ W) } ops []
+  let o3 := runOpsD mwStep mk ops []
+  let o1 := runOpsD specStep { kind := sk, arr := init.map (· % 2 ^ W) } ops []
   ";".intercalate o3 ++ " || " ++ ";".intercalate o1
 
 /-! ### AD -/
@@ -190,7 +190,7 @@ def handleAD (toks : List String) (body : String) : String :=
       a ++ " || " ++ a
     | "seek" =>
       let ops := ((body.splitOn ";").map fun o => (o.trimAscii.toString.splitOn " ").filter (· ≠ "")).filter (· ≠ [])
-      let a := ";".intercalate (runOps (adSeekStep nbytes) { data := data } ops [])
+      let a := ";".intercalate (runOpsD (adSeekStep nbytes) { data := data } ops [])
       a ++ " || " ++ a
     | _ => "bad-request"
   | _ => "bad-request"
